@@ -28,3 +28,5 @@ def run(res, tier, seed, replay):
     importlib.import_module("props.c14").async_part(res, tier, seed + 214, 60 if tier == "quick" else 1500, False)
     # crowded lifetimes: 9-24 installations alive in one injector
     histlib.check_histories(res, "c02", 12 if tier == "quick" else 400, seed + 21, "full", gen=histlib.gen_crowded_history)
+    # long lifetimes on few functions: 40-72 installations over 3-6 targets in one injector
+    histlib.check_histories(res, "c02", 6 if tier == "quick" else 150, seed + 22, "full", gen=histlib.gen_dense_history)
